@@ -588,12 +588,12 @@ def literal_rule(rep, rule, mod, D, pr):
                  H.term.where(), 'no path of the directive loop returns to its head without entering a directive')
 
 
-def toplevel_rule(rep, mod, T, D):
+def toplevel_rule(rep, mod, T, D, join_at=6):
     """R-PCACC for __printf: the whole function with the formatting routines summarised by 'returns the number of callbacks
     it made' (which R-PCACC decides for each routine, print_f excepted: property C13)"""
     f = mod.fn('__printf')
     ems = emitter_functions(mod)
-    sx = SX(mod, handler_arg=HANDLER, emitters=list(ems), fmt_base=FMT, join_at=6, static_exit=static_exit_loop,
+    sx = SX(mod, handler_arg=HANDLER, emitters=list(ems), fmt_base=FMT, join_at=join_at, static_exit=static_exit_loop,
             pure_by_args=CLASSIFIERS)
     st = sx.start(f, fmt_args())
     rets = sx.run_function(f, st)
@@ -935,7 +935,7 @@ def _task(name):
             return ('ok', str_layout(mod, T, D, facts, name[1]))
         if kind == 'top':
             r = Rec()
-            toplevel_rule(r, mod, T, D)
+            toplevel_rule(r, mod, T, D, join_at=name[1])
             return ('ok', r.items)
         if kind == 'wrap':
             r = Rec()
@@ -978,23 +978,32 @@ def run(rep, repo, tier):
                      'conversion %r does not lead to exactly one call of a formatting routine' % conv)
             continue
         k = (ctxt_key(ctxt), conv in 'di', ISO_BASE[conv], conv == 'p')
+        if tier != 'quick':
+            k = k + (conv,)         # thorough: no sharing between conversions that look alike at the call site
         groups.setdefault(k, []).append(conv)
-    tasks = [('int', tuple(g)) for g in groups.values()] + [('str', 's'), ('str', 'c'), ('top',), ('wrap',)]
+    tasks = [('int', tuple(g)) for g in groups.values()] + [('str', 's'), ('str', 'c'), ('top', 6), ('wrap',)]
+    if tier != 'quick':
+        tasks.append(('top', 48))   # thorough: the count once more with far fewer path merges
     _G.update(mod=mod, T=T, D=D, facts=facts, repo=repo)
     nproc = min(len(tasks), max(1, (os.cpu_count() or 2) - 1))
+    results = None
     if nproc > 1 and not os.environ.get('VERIF_C06_SERIAL'):
-        with multiprocessing.get_context('fork').Pool(nproc) as pool:
-            results = pool.map(_task, tasks, chunksize=1)
-    else:
+        try:
+            with multiprocessing.get_context('fork').Pool(nproc) as pool:
+                results = pool.map(_task, tasks, chunksize=1)
+        except (OSError, ValueError):
+            results = None          # no worker processes available here: same work, one after the other
+    if results is None:
         results = [_task(t) for t in tasks]
     for t, (st, payload) in zip(tasks, results):
         if st != 'ok':
             raise AnalysisBroken('%r: %s' % (t, payload))
         for it in payload:
             rep.inst(*it[:6], nontrivial=it[6], fact=it[7])
-    for rule, n in (('R-LOOPVAR', 12), ('R-CURSOR', 15), ('R-OPSBITS', 18), ('R-VAARG', 25), ('R-PERCENT', 1), ('R-WIDE', 1), ('R-NEXT', 10),
-                    ('R-STAR', 4), ('R-FIELD', 3), ('R-SYNTAX', 12), ('R-FLAGS', 5), ('R-LITERAL', 1), ('R-ILAYOUT', 100), ('R-IMAG', 15), ('R-DIGITCHR', 9),
-                    ('R-SLAYOUT', 6), ('R-SBOUND', 1), ('R-PCACC', 5), ('R-EMITCOUNT', 8), ('R-IBUF', 3), ('R-WRAP', 10)):
+    for rule, n in (('R-LOOPVAR', 12), ('R-CURSOR', 15), ('R-OPSBITS', 18), ('R-VAARG', 25), ('R-PERCENT', 1), ('R-WIDE', 1),
+                    ('R-NEXT', 10), ('R-STAR', 4), ('R-FIELD', 3), ('R-SYNTAX', 12), ('R-FLAGS', 5), ('R-PARSE', 1),
+                    ('R-LITERAL', 1), ('R-ILAYOUT', 100), ('R-IMAG', 15), ('R-DIGITCHR', 9), ('R-SLAYOUT', 6),
+                    ('R-SBOUND', 1), ('R-PCACC', 5), ('R-EMITCOUNT', 6), ('R-IBUF', 2), ('R-WRAP', 18)):
         rep.floor(rule, n)
     rep.assumptions += [
         'LP64 target (the IR is produced for x86-64 Linux): long, long long, intmax_t, size_t, ptrdiff_t are 64 bits wide',
@@ -1007,16 +1016,22 @@ def run(rep, repo, tier):
         'print_f (%f %e %g %a) belongs to property C13: here it is only assumed to return the number of callbacks it made',
     ]
     rep.explanation = (
-        'Decided for every directive of the grammar and every argument value (symbolically, no enumeration of values): '
-        'the parser maps each flag / length character to its own bit, fetches every argument with the C type of its length '
-        'modifier, turns literal and * fields into the width and precision ISO C prescribes (negative * width = left-justify, '
-        'negative * precision = none), never moves the format cursor past the terminator and every loop has an exit test '
-        'that changes; the formatting routines, executed symbolically per conversion with the constants of their call site, '
-        'emit exactly the ISO C layout (padding, sign, prefix, precision zeros, digits, left/right justification) in every '
-        'case of the flag/width/precision/value split, generate digits from the full 64-bit magnitude in the right base with '
-        'the right digit characters, stay inside the digit buffer, never count an emission loop down from a negative value, '
-        'return the number of callbacks made; %s never scans the argument beyond the precision; __printf returns the total '
-        'number of callbacks; the libc wrappers store through an advancing cursor, terminate the string, forward format, '
-        'arguments and the count, and snprintf honours its size.  Not decided: the floating conversions (C13), %n, the wide '
-        'forms %lc/%ls beyond the fact that the l bit is ignored (reported), arithmetic overflow of int counters for fields '
-        'wider than INT_MAX, and that the callback itself behaves.')
+        'Decided for every directive of the grammar and every argument value (symbolically, no enumeration of values).  '
+        'Parser (__printf): every loop has an exit test that changes (R-LOOPVAR); the format cursor never steps over a '
+        'character that could be the terminator (R-CURSOR); each flag / length character has its own bit and one pass of '
+        'the flag loop adds exactly that bit (R-OPSBITS, R-FLAGS); width, precision, length modifier and conversion '
+        'character are each read where the previous part ended and the scan resumes right after the conversion character '
+        '(R-SYNTAX, R-NEXT); literal and * fields become the width and precision ISO C prescribes, a negative * width '
+        'left-justifies, a negative * precision counts as none (R-FIELD, R-STAR); every argument is fetched with the C type '
+        'of its length modifier and is what the formatting routine receives (R-VAARG); an ordinary character and %% cost '
+        'one callback each (R-LITERAL, R-PERCENT).  Formatting routines, executed symbolically per conversion with the '
+        'constants of their call site: the emission (padding, sign, prefix, precision zeros, digits, justification) equals '
+        'the ISO C 7.21.6.1 layout in every case of the flag / width / precision / value split (R-ILAYOUT, R-SLAYOUT), digits '
+        'come from the full 64-bit magnitude in the right base with the right characters (R-IMAG, R-DIGITCHR), all stores '
+        'and reads stay inside the digit buffer (R-IBUF), no emission loop counts down from a negative value (R-EMITCOUNT), '
+        '%s never scans the argument beyond the precision (R-SBOUND), every routine and __printf itself return the number '
+        'of callbacks made (R-PCACC).  Wrappers: cursor, terminator, forwarding of format / arguments / count, error code of '
+        'the descriptor variant, and the size bound of snprintf (R-WRAP).  %p is judged against the form the property '
+        'states (0x + hex digits of the pointer, any number of leading zeros).  Not decided: the floating conversions '
+        '(C13), %n, the wide forms %lc / %ls beyond the fact that the l bit is ignored (R-WIDE, reported as known), '
+        'arithmetic overflow of int counters for fields wider than INT_MAX, behaviour of the callback.')
